@@ -3,7 +3,7 @@ import re
 from fractions import Fraction
 from sa.dsl import T, gamma, _t
 from sa.terms import mk, ZERO, ONE, show, walk, map_term, num
-from .common import engine, inventory, prove, analysis_or_fail
+from .common import engine, inventory, prove, analysis_or_fail, plain_iteration, selected_iteration
 
 LEVEL = 'proof'
 MANIFEST = {
@@ -152,7 +152,7 @@ def linkpoints(ctx, S):
     prove(ctx, R, FID + '|offset', an, 'eq', T(f['offset']), T(last_of(H1, 'link_points', 'offset')) + T(pref(link, 'length')), assume=A, where=ctx.where(S['b'], c.span),
           note='boundary after a link = boundary before it + link length')
     # one push per path element: the push is gated by the path iterator only
-    ctx.check(len(c.pc) == 1 and c.pc[0][1] == '1' and 'iterpos' in repr(c.pc[0][0]), R, FID + '|one per link', 'exactly one link point is appended per path element (no other condition)',
+    ctx.check(len(c.pc) == 1 and c.pc[0][1] == '1' and plain_iteration(c.pc[0][0]), R, FID + '|one per link', 'exactly one link point is appended per path element (no other condition)',
               'push is gated by %s' % gate_tail(an, c, 0), ctx.where(S['b'], c.span))
     # the fields written into the (previously dummy) last link point
     last_idx = mk('sub', ('len', ('loopvar', H1, P('link_points'))), ONE)
@@ -195,7 +195,7 @@ def grades_or_curves(ctx, S, vec, pts, val, R):
     k = '%s|no %s' % (FID, pts)
     empty_cond = mk('eq', ('len', pref(link, pts)), ZERO)
     gate_ok = any(x == empty_cond and o != '0' for x, o in cf.pc) and not cf.pc[-1][0][0] == 'pathset' and \
-        sum(1 for x, o in cf.pc if 'iterpos' in repr(x) and x[0] == 'discr') >= 1
+        sum(1 for x, o in cf.pc if plain_iteration(x)) >= 1 and not any(selected_iteration(x) is not None for x, o in cf.pc)
     ctx.check(gate_ok, R, k + '|gate', 'taken exactly when the link has no %s' % pts, 'gate: %s' % gate_tail(an, cf, 0), ctx.where(S['b'], cf.span))
     prove(ctx, R, k + '|offset', an, 'eq', T(ff['offset']), base + T(pref(link, 'length')), assume=A, where=ctx.where(S['b'], cf.span), note='flat segment ends at the link end')
     prove(ctx, R, k + '|res_net', an, 'eq', T(ff['res_net']), T(last_of(H2, vec, 'res_net')), assume=A, where=ctx.where(S['b'], cf.span), note='flat segment keeps the cumulative value')
@@ -263,7 +263,7 @@ def grades_or_curves(ctx, S, vec, pts, val, R):
     tail = [(x, o) for x, o in cw.pc if not (x[0] == 'pathset')]
     conds = [x for x, o in tail]
     ok_m = sum(1 for x in conds if 'window' in repr(x)) == 1 and any(x == empty_cond and o == '0' for x, o in tail)
-    extra = [show(x, an.names)[:100] for x, o in tail if 'window' not in repr(x) and x != empty_cond and not (x[0] == 'discr' and 'iterpos' in repr(x))]
+    extra = [show(x, an.names)[:100] for x, o in tail if selected_iteration(x) is not None or ('window' not in repr(x) and x != empty_cond and not plain_iteration(x))]
     ctx.check(ok_m and not extra, R, k + '|one per window', 'exactly one element is pushed per pair of consecutive points of a link that has %s' % pts,
               'push gated by %s' % gate_tail(an, cw, 0), ctx.where(S['b'], cw.span))
     S[vec + '_win'] = cw
@@ -327,7 +327,7 @@ def catenary(ctx, S):
     ok = did == pref(el, 'district_id') or (did[0] == 'uf' and 'clone' in did[1] and pref(el, 'district_id') in did[2:]) or any(x == pref(el, 'district_id') for x in walk(did))
     ctx.check(ok, R, FID + '|district_id', 'the district id is copied', 'district_id = %s' % show(did, an.names)[:120], ctx.where(S['b'], c.span))
     it = el[-1][1]
-    extra = [show(x, an.names)[:100] for x, o in c.pc if x[0] != 'pathset' and not (x[0] == 'discr' and 'iterpos' in repr(x))]
+    extra = [show(x, an.names)[:100] for x, o in c.pc if x[0] != 'pathset' and not plain_iteration(x)]
     ctx.check(it[0] == 'iterpos' and not extra, R, FID + '|one per section', 'one section is pushed per catenary section of the link, in order', 'index %s, gate %s' % (show(it), extra), ctx.where(S['b'], c.span))
     stored = S.get('counts', {}).get('cat_power_count')
     ctx.check(stored == ('len', pref(S['link1'], 'cat_power_limits')), 'C06-5.counts', FID + '|cat_power_count', 'stored catenary count = number of sections of the link (= pushes)',
@@ -349,7 +349,7 @@ def contiguity(ctx, S):
     found = None
     real = None
     for g in an.guards:
-        gate = [(c, o) for c, o in g.gate if not (c[0] == 'discr' and 'iterpos' in repr(c))]
+        gate = [(c, o) for c, o in g.gate if not plain_iteration(c)]
         h = g.holds_term()
         if h == want and all(c == nonempty and o != '0' for c, o in gate):
             found = g
